@@ -123,6 +123,12 @@ def inputs(tier):
     out += [dict(src='corpus', d=d) for d in corpus.cutouts(tier, radius=8.0)[:: (2 if tier == 'thorough' else 5)]]
     out += [dict(src='corpus', d=d) for d in corpus.pairs('quick', kinds_a=('ASP', 'HIS', 'N+', 'ACT'), kinds_b=('LYS', 'C-', 'CA', 'MAM', 'PYR', 'ASN'))]
     out += [dict(src='corpus', d=d) for d in corpus.clusters('quick')[::8]]
+    # multi-conformation inputs (options must keep their promise in every conformation)
+    for lay in ([[' ', 'ASP'], ['B', 'ASPs']], [['A', 'ASP'], ['B', 'ALA']]):
+        out.append(dict(src='c08', d=dict(kind='alt', layout=lay)))
+    out.append(dict(src='c08', d=dict(kind='model', layout=[[1, 'ASP'], [2, 'ASPs']])))
+    out.append(dict(src='repeat', d=corpus.cutout_desc('4DFR', 'A', 26, 8.0)))
+    out.append(dict(src='repeat', d=corpus.pair_desc('HIS', 'GLU', 3.0, 'mid')))
     return out
 
 
@@ -175,7 +181,17 @@ def hydrogens_fed_back(s, mol):
 
 
 def run_case(case, ctx, acc):
-    s = corpus.build(case['d'], ctx.seed)
+    if case['src'] == 'c08':
+        from . import c08
+        s = c08.build(dict(case['d'], layout=[tuple(x) for x in case['d']['layout']]), ctx.seed)
+    elif case['src'] == 'repeat':
+        one = corpus.build(case['d'], ctx.seed)
+        items = []
+        for m in (1, 2):
+            items += ['MODEL     %4d\n' % m] + [i.clone() if not isinstance(i, str) else i for i in one.items] + ['ENDMDL\n']
+        s = gen.S(items)
+    else:
+        s = corpus.build(case['d'], ctx.seed)
     text0 = gen.to_text(s)
     m0 = pk.run(text0)
     r0 = pk.record(m0)
@@ -188,7 +204,7 @@ def run_case(case, ctx, acc):
             acc.viols.append(Viol(sub, 'no-effect', 'edit-changes-result/%s/%s' % (sub['edit'].split('/')[0] + '/' + sub['edit'].split('/')[1]
                                                                                  if family in ('record', 'column') else family, d[0][0]),
                                   '%s: %s' % (sub['edit'], str(d[0])[:300]), inputs=dict(pdb=text0, edited=text, opts=list(opts))))
-    eds = edit_list(s.items, ctx.tier)
+    eds = edit_list(s.items, ctx.tier) if case['src'] == 'corpus' else []
     for family, name, items in eds:
         compare(dict(case, edit=name), gen.to_text(items), (), family)
     if ctx.tier == 'thorough':
@@ -212,7 +228,7 @@ def run_case(case, ctx, acc):
         acc.viols.append(Viol(sub, 'no-effect', 'protonate-all-changes-result/%s' % d[0][0], str(d[0])[:300],
                               inputs=dict(pdb=text0, opts=['--protonate-all'])))
     # the program's own hydrogens fed back with --keep-protons
-    if amino_only(s):
+    if amino_only(s) and case['src'] == 'corpus':
         items = hydrogens_fed_back(s, m0)
         sub = dict(case, edit='option/keep-protons-feedback')
         if items is None:
